@@ -1992,3 +1992,333 @@ def lea_h_pieces(s1, s2, al, be, K, j):
 def lea_commutes(s1, s2, al, be, K, j):
     """C07: y -> al*y + be (al != 0) commutes with LinearAdaptiveRFA: the windows depend on ratios of absolute jumps only"""
     return fa(s2, K, j) == al * fa(s1, K, j) + be
+
+
+# =============================================================================== ExpAdaptiveRFA.rfa: values (C05 - C07)
+#
+# Same pieces as ExpFixedRFA, with the adaptive windows wl(K) / wr(K) (specification functions above) and the linear shares
+# bl(K) = trunc(beta * wl(K)), br(K) = trunc(beta * wr(K)).
+
+@opaque
+def bl(self, K):
+    return trunc(self.beta * wl(self, K))
+
+
+@opaque
+def br(self, K):
+    return trunc(self.beta * wr(self, K))
+
+
+@opaque
+def zlba(self, K):
+    return (z0a(self, K) if bl(self, K) == 0 else
+            lf(xr(self, K, bl(self, K)), xe(self, K, 0), z0a(self, K), xr(self, K, wl(self, K)), ye(self, K)))
+
+
+@opaque
+def zrba(self, K):
+    return (z0a(self, K + 1) if br(self, K) == 0 else
+            lf(xr(self, K, self.n - br(self, K)), xr(self, K, self.n - wr(self, K)), ye(self, K), xe(self, K + 1, 0), z0a(self, K + 1)))
+
+
+@opaque
+def fa1(self, K, j):
+    return lf(xe(self, K, j), xe(self, K, 0), z0a(self, K), xr(self, K, bl(self, K)), zlba(self, K))
+
+
+@opaque
+def fa2(self, K, j):
+    return lexy(xe(self, K, j), xr(self, K, bl(self, K)), zlba(self, K), xr(self, K, wl(self, K)), ye(self, K), self.exp)
+
+
+@opaque
+def fa4(self, K, j):
+    return elin(xe(self, K, j), xr(self, K, self.n - wr(self, K)), ye(self, K), xr(self, K, self.n - br(self, K)), zrba(self, K), self.exp)
+
+
+@opaque
+def fa5(self, K, j):
+    return lf(xe(self, K, j), xr(self, K, self.n - br(self, K)), zrba(self, K), xe(self, K + 1, 0), z0a(self, K + 1))
+
+
+@opaque
+def fea(self, K, j):
+    """sample j of the extended interval K as ExpAdaptiveRFA documents it"""
+    return (fa1(self, K, j) if j < bl(self, K) else
+            (fa2(self, K, j) if j < wl(self, K) else
+             (ye(self, K) if j < self.n - wr(self, K) else
+              (fa4(self, K, j) if j < self.n - br(self, K) else fa5(self, K, j)))))
+
+
+ghost(EXPA + '.rfa', before='y_0 = y[k, 0]', name='zk', expr='z.a.copy()')
+
+BEFORE_GATP_E = 'a_ls, a_rs, gammas = LinearAdaptiveRFA.get_adaptive_transition_points'
+
+
+@hint(EXPA + '.rfa', before=BEFORE_GATP_E)
+def expa_h_grid_mid(self, x, y):
+    return ext_mid(self, x.a, y.a)
+
+
+@hint(EXPA + '.rfa', before=BEFORE_GATP_E)
+def expa_h_grid_left0(self, osx, x):
+    return osx[0] == self.x[0] and osx[self.n] == self.x[1] and 2 * osx[0] - osx[self.n] == 2 * self.x[0] - self.x[1]
+
+
+@hint(EXPA + '.rfa', before=BEFORE_GATP_E)
+def expa_h_grid_left(self, x, y):
+    return ext_left(self, x.a, y.a)
+
+
+@hint(EXPA + '.rfa', before=BEFORE_GATP_E)
+def expa_h_grid_right(self, x, y):
+    return ext_right(self, x.a, y.a)
+
+
+@hint(EXPA + '.rfa', before=BEFORE_GATP_E)
+def expa_h_grid(self, x, y, z):
+    return ext_grid(self, x.a, y.a) and forall(range(ext_len(self)), lambda t: z.a[t] == y.a[t])
+
+
+def windows_are_e(self, a_ls, a_rs, b_ls, b_rs):
+    return (windows_are(self, a_ls, a_rs) and len(b_ls) == len(self.x) + 1 and len(b_rs) == len(self.x) + 1
+            and forall(range(len(self.x) + 1), lambda K: b_ls[K] == bl(self, K) and b_rs[K] == br(self, K)
+                       and 0 <= bl(self, K) and bl(self, K) <= wl(self, K) and 0 <= br(self, K) and br(self, K) <= wr(self, K)))
+
+
+@hint(EXPA + '.rfa', before=BEFORE_LOOP)
+def expa_h_jumps(self, y):
+    return forall(range(len(self.x) + 1), lambda K: y.a[K * self.n] == ye(self, K))
+
+
+@hint(EXPA + '.rfa', before=BEFORE_LOOP)
+def expa_h_windows_mid(self, y, a_ls, a_rs):
+    return forall(range(1, len(self.x)), lambda K: a_ls[K] == wl(self, K) and a_rs[K] == wr(self, K))
+
+
+@hint(EXPA + '.rfa', before=BEFORE_LOOP)
+def expa_h_windows_ends(self, y, a_ls, a_rs):
+    return (a_ls[0] == wl(self, 0) and a_rs[0] == wr(self, 0) and a_ls[len(self.x)] == wl(self, len(self.x))
+            and a_rs[len(self.x)] == wr(self, len(self.x)))
+
+
+@hint(EXPA + '.rfa', before=BEFORE_LOOP)
+def expa_h_windows_are(self, a_ls, a_rs):
+    return windows_are(self, a_ls, a_rs)
+
+
+@hint(EXPA + '.rfa', before=BEFORE_LOOP)
+def expa_h_shares(self, a_ls, a_rs, b_ls, b_rs):
+    return forall(range(len(self.x) + 1), lambda K: b_ls[K] == bl(self, K) and b_rs[K] == br(self, K))
+
+
+@hint(EXPA + '.rfa', before=BEFORE_LOOP)
+def expa_h_windows_are_e(self, a_ls, a_rs, b_ls, b_rs):
+    return windows_are_e(self, a_ls, a_rs, b_ls, b_rs)
+
+
+@invariant(EXPA + '.rfa', loop=1)
+def expa_inv1_values(self, x, y, z, a_ls, a_rs, b_ls, b_rs, k):
+    return (ext_grid(self, x.a, y.a) and windows_are_e(self, a_ls, a_rs, b_ls, b_rs)
+            and forall(range(1, k), lambda K: forall(range(self.n), lambda j: z.a[K * self.n + j] == fea(self, K, j)))
+            and untouched_from(self, z.a, y.a, k * self.n))
+
+
+BEFORE_L2_E = 'for i in range(0, b_ls[k])'
+
+
+@hint(EXPA + '.rfa', before=BEFORE_L2_E)
+def expa_h_windows_k(self, a_ls, a_rs, b_ls, b_rs, k):
+    return (a_rs[k - 1] == wr(self, k - 1) and a_ls[k] == wl(self, k) and a_rs[k] == wr(self, k) and a_ls[k + 1] == wl(self, k + 1)
+            and b_ls[k] == bl(self, k) and b_rs[k] == br(self, k)
+            and 0 <= bl(self, k) and bl(self, k) <= wl(self, k) and wl(self, k) <= self.a
+            and 0 <= br(self, k) and br(self, k) <= wr(self, k) and wr(self, k) <= self.a)
+
+
+@hint(EXPA + '.rfa', before=BEFORE_L2_E)
+def expa_h_locals(self, beta, exp, n):
+    return beta == self.beta and exp == self.exp and n == self.n
+
+
+@hint(EXPA + '.rfa', before=BEFORE_L2_E)
+def expa_h_points(self, x, y, k):
+    return (x.a[k * self.n] == xe(self, k, 0) and x.a[k * self.n - wr(self, k - 1)] == xl(self, k, wr(self, k - 1))
+            and x.a[k * self.n + wl(self, k)] == xr(self, k, wl(self, k)) and x.a[k * self.n + self.n - wr(self, k)] == xr(self, k, self.n - wr(self, k))
+            and x.a[(k + 1) * self.n] == xe(self, k + 1, 0) and x.a[(k + 1) * self.n + wl(self, k + 1)] == xr(self, k + 1, wl(self, k + 1))
+            and x.a[k * self.n + bl(self, k)] == xr(self, k, bl(self, k)) and x.a[k * self.n + self.n - br(self, k)] == xr(self, k, self.n - br(self, k))
+            and y.a[(k - 1) * self.n] == ye(self, k - 1) and y.a[k * self.n] == ye(self, k) and y.a[(k + 1) * self.n] == ye(self, k + 1))
+
+
+@hint(EXPA + '.rfa', before=BEFORE_L2_E)
+def expa_h_z0_cases(self, x, y, a_ls, a_rs, k, z_0):
+    return (implies(a_rs[k - 1] == 0 and a_ls[k] == 0, z_0 == y.a[(k - 1) * self.n])
+            and implies(not (a_rs[k - 1] == 0 and a_ls[k] == 0),
+                        z_0 == lf(x.a[k * self.n], x.a[k * self.n - a_rs[k - 1]], y.a[(k - 1) * self.n], x.a[k * self.n + a_ls[k]], y.a[k * self.n])))
+
+
+@hint(EXPA + '.rfa', before=BEFORE_L2_E)
+def expa_h_z1_cases(self, x, y, a_ls, a_rs, k, y_0, z_1):
+    return implies(not (a_rs[k] == 0 and a_ls[k + 1] == 0),
+                   z_1 == lf(x.a[(k + 1) * self.n], x.a[k * self.n + self.n - a_rs[k]], y_0, x.a[(k + 1) * self.n + a_ls[k + 1]], y.a[(k + 1) * self.n]))
+
+
+@hint(EXPA + '.rfa', before=BEFORE_L2_E)
+def expa_h_zbl_cases(self, x, y, a_ls, b_ls, k, z_0, z_0_bl):
+    return (implies(b_ls[k] == 0, z_0_bl == z_0)
+            and implies(b_ls[k] != 0, z_0_bl == lf(x.a[k * self.n + b_ls[k]], x.a[k * self.n], z_0, x.a[k * self.n + a_ls[k]], y.a[k * self.n])))
+
+
+@hint(EXPA + '.rfa', before=BEFORE_L2_E)
+def expa_h_zbr_cases(self, x, y, a_rs, b_rs, k, z_1, z_0_br):
+    return (implies(b_rs[k] == 0, z_0_br == z_1)
+            and implies(b_rs[k] != 0, z_0_br == lf(x.a[k * self.n + self.n - b_rs[k]], x.a[k * self.n + self.n - a_rs[k]], y.a[k * self.n],
+                                                   x.a[(k + 1) * self.n], z_1)))
+
+
+@hint(EXPA + '.rfa', before=BEFORE_L2_E)
+def expa_h_borders(self, k, y_0, z_0):
+    return y_0 == ye(self, k) and z_0 == z0a(self, k)
+
+
+@hint(EXPA + '.rfa', before=BEFORE_L2_E)
+def expa_h_xl_xr(self, k):
+    return implies(wr(self, k) >= 1, xl(self, k + 1, wr(self, k)) == xr(self, k, self.n - wr(self, k)))
+
+
+@hint(EXPA + '.rfa', before=BEFORE_L2_E)
+def expa_h_border_next(self, k, z_1):
+    return implies(wr(self, k) >= 1, z_1 == z0a(self, k + 1))
+
+
+@hint(EXPA + '.rfa', before=BEFORE_L2_E)
+def expa_h_break_l0(self, k, z_0_bl):
+    return implies(bl(self, k) == 0, z_0_bl == z0a(self, k) and zlba(self, k) == z0a(self, k))
+
+
+@hint(EXPA + '.rfa', before=BEFORE_L2_E)
+def expa_h_break_r0(self, k, z_0_br):
+    return implies(wr(self, k) >= 1 and br(self, k) == 0, z_0_br == z0a(self, k + 1) and zrba(self, k) == z0a(self, k + 1))
+
+
+@hint(EXPA + '.rfa', before=BEFORE_L2_E)
+def expa_h_breaks(self, k, z_0_bl, z_0_br):
+    return z_0_bl == zlba(self, k) and implies(wr(self, k) >= 1, z_0_br == zrba(self, k))
+
+
+def seg1a(self, za, k, hi):
+    return forall(range(hi), lambda j: za[k * self.n + j] == fa1(self, k, j))
+
+
+def seg2a(self, za, k, hi):
+    return forall(range(bl(self, k), hi), lambda j: za[k * self.n + j] == fa2(self, k, j))
+
+
+def seg4a(self, za, k, hi):
+    return forall(range(self.n - wr(self, k), hi), lambda j: za[k * self.n + j] == fa4(self, k, j))
+
+
+def seg5a(self, za, k, hi):
+    return forall(range(self.n - br(self, k), hi), lambda j: za[k * self.n + j] == fa5(self, k, j))
+
+
+def plateau_untouched_a(self, za, ya, k, i):
+    return forall(range(ext_len(self)), lambda t: za[t] == ya[t]
+                  if (t >= k * self.n + wl(self, k) and (t < k * self.n + self.n - wr(self, k) or t >= k * self.n + i)) else True)
+
+
+@invariant(EXPA + '.rfa', loop=2)
+def expa_inv2_values(self, x, y, z, zk, a_ls, a_rs, b_ls, b_rs, k, i):
+    return (windows_are_e(self, a_ls, a_rs, b_ls, b_rs) and frame_before(self, z.a, zk, k) and seg1a(self, z.a, k, i)
+            and untouched_from(self, z.a, y.a, k * self.n + i))
+
+
+@hint(EXPA + '.rfa', loop=2, when='head')
+def expa_h2_point(self, x, b_ls, k, i):
+    return (b_ls[k] == bl(self, k) and implies(i < bl(self, k), x.a[k * self.n + i] == xe(self, k, i))
+            and x.a[k * self.n + b_ls[k]] == xr(self, k, bl(self, k)) and x.a[k * self.n] == xe(self, k, 0))
+
+
+@hint(EXPA + '.rfa', loop=2, when='end')
+def expa_h2_stored(self, z, k, i):
+    return z.a[k * self.n + (i - 1)] == fa1(self, k, i - 1)
+
+
+@invariant(EXPA + '.rfa', loop=3)
+def expa_inv3_values(self, x, y, z, zk, a_ls, a_rs, b_ls, b_rs, k, i):
+    return (windows_are_e(self, a_ls, a_rs, b_ls, b_rs) and frame_before(self, z.a, zk, k) and seg1a(self, z.a, k, bl(self, k))
+            and seg2a(self, z.a, k, i) and untouched_from(self, z.a, y.a, k * self.n + i))
+
+
+@hint(EXPA + '.rfa', loop=3, when='head')
+def expa_h3_point(self, x, a_ls, b_ls, k, i):
+    return (a_ls[k] == wl(self, k) and b_ls[k] == bl(self, k) and implies(i < wl(self, k), x.a[k * self.n + i] == xe(self, k, i))
+            and x.a[k * self.n + b_ls[k]] == xr(self, k, bl(self, k)) and x.a[k * self.n + a_ls[k]] == xr(self, k, wl(self, k)))
+
+
+@hint(EXPA + '.rfa', loop=3, when='end')
+def expa_h3_stored(self, z, k, i):
+    return z.a[k * self.n + (i - 1)] == fa2(self, k, i - 1)
+
+
+@invariant(EXPA + '.rfa', loop=4)
+def expa_inv4_values(self, x, y, z, zk, a_ls, a_rs, b_ls, b_rs, k, i):
+    return (windows_are_e(self, a_ls, a_rs, b_ls, b_rs) and frame_before(self, z.a, zk, k) and seg1a(self, z.a, k, bl(self, k))
+            and seg2a(self, z.a, k, wl(self, k)) and seg4a(self, z.a, k, i) and plateau_untouched_a(self, z.a, y.a, k, i))
+
+
+@hint(EXPA + '.rfa', loop=4, when='head')
+def expa_h4_point(self, x, a_rs, b_rs, k, i):
+    return (a_rs[k] == wr(self, k) and b_rs[k] == br(self, k) and implies(i < self.n, x.a[k * self.n + i] == xe(self, k, i))
+            and x.a[k * self.n + self.n - a_rs[k]] == xr(self, k, self.n - wr(self, k))
+            and x.a[k * self.n + self.n - b_rs[k]] == xr(self, k, self.n - br(self, k)))
+
+
+@hint(EXPA + '.rfa', loop=4, when='end')
+def expa_h4_stored(self, z, k, i):
+    return z.a[k * self.n + (i - 1)] == fa4(self, k, i - 1)
+
+
+@invariant(EXPA + '.rfa', loop=5)
+def expa_inv5_values(self, x, y, z, zk, a_ls, a_rs, b_ls, b_rs, k, i):
+    return (windows_are_e(self, a_ls, a_rs, b_ls, b_rs) and frame_before(self, z.a, zk, k) and seg1a(self, z.a, k, bl(self, k))
+            and seg2a(self, z.a, k, wl(self, k)) and seg4a(self, z.a, k, self.n - br(self, k)) and seg5a(self, z.a, k, i)
+            and plateau_untouched_a(self, z.a, y.a, k, i))
+
+
+@hint(EXPA + '.rfa', loop=5, when='head')
+def expa_h5_point(self, x, b_rs, k, i):
+    return (b_rs[k] == br(self, k) and implies(i < self.n, x.a[k * self.n + i] == xe(self, k, i))
+            and x.a[k * self.n + self.n - b_rs[k]] == xr(self, k, self.n - br(self, k)) and x.a[k * self.n + self.n] == xe(self, k + 1, 0))
+
+
+@hint(EXPA + '.rfa', loop=5, when='end')
+def expa_h5_stored(self, z, k, i):
+    return z.a[k * self.n + (i - 1)] == fa5(self, k, i - 1)
+
+
+@hint(EXPA + '.rfa', loop=1, when='end')
+def expa_h1_blocks(self, k):
+    return forall(range(1, k - 1), lambda K: K * self.n + self.n <= (k - 1) * self.n)
+
+
+@hint(EXPA + '.rfa', loop=1, when='end')
+def expa_h1_frame(self, z, zk, k):
+    return forall(range(1, k - 1), lambda K: forall(range(self.n), lambda j: z.a[K * self.n + j] == zk[K * self.n + j]))
+
+
+@hint(EXPA + '.rfa', loop=1, when='end')
+def expa_h1_current0(self, z, k):
+    return forall(range(self.n), lambda j: z.a[(k - 1) * self.n + j] == fea(self, k - 1, j))
+
+
+@hint(EXPA + '.rfa', loop=1, when='end')
+def expa_h1_current(self, z, k):
+    return forall(range(k - 1, k), lambda K: forall(range(self.n), lambda j: z.a[K * self.n + j] == fea(self, K, j)))
+
+
+@ensures(EXPA + '.rfa')
+def expa_values(self, result):
+    """C06: every recreated sample equals the documented closed form with the adaptive windows; the last sample is the last
+    average"""
+    return (forall(range(len(self.x) - 1), lambda q: forall(range(self.n), lambda j: eq(result[1][q * self.n + j], fea(self, q + 1, j))))
+            and eq(result[1][(len(self.x) - 1) * self.n], ye(self, len(self.x))))
